@@ -1,20 +1,36 @@
 /- gdmodel: line-protocol driver for the executable Lean models. -/
 import GdModel.Driver.Conv
+import GdModel.Driver.Field
 open GdModel.Driver
 
-def dispatch (line : String) : String :=
-  match words line with
-  | "conv" :: rest => handleConv false rest
-  | "convspec" :: rest => handleConv true rest
-  | _ => "bad-op"
+structure St where
+  db : DB := []
+  spec : Bool := false
 
-partial def loop (h : IO.FS.Stream) (out : IO.FS.Stream) : IO Unit := do
+def step (st : St) (line : String) : St × String :=
+  match words line with
+  | "conv" :: rest => (st, handleConv false rest)
+  | "convspec" :: rest => (st, handleConv true rest)
+  | "def" :: rest =>
+    match parseDef rest with
+    | some d => ({ st with db := st.db ++ [d] }, "-")
+    | none => (st, "bad-def")
+  | "reset" :: _ => ({ st with db := [] }, "-")
+  | "open" :: _ => (st, "open e=0")
+  | "get" :: rest => (st, handleGet st.spec st.db rest)
+  | "eof" :: rest => (st, handleEof st.spec st.db rest)
+  | "spf" :: rest => (st, handleSpf st.db rest)
+  | [] => (st, "-")
+  | w :: _ => if w.startsWith "#" then (st, "-") else (st, "-")
+
+partial def loop (h : IO.FS.Stream) (out : IO.FS.Stream) (st : St) : IO Unit := do
   let line ← h.getLine
   if line.isEmpty then return ()
-  out.putStrLn (dispatch line)
-  loop h out
+  let (st', o) := step st line
+  out.putStrLn o
+  loop h out st'
 
-def main : IO Unit := do
+def main (args : List String) : IO Unit := do
   let stdin ← IO.getStdin
   let stdout ← IO.getStdout
-  loop stdin stdout
+  loop stdin stdout { spec := args.contains "--spec" }
